@@ -102,7 +102,12 @@ class AgentSSH:
 
     def _send_message(self, msg):
         msg = asbytes(msg)
-        self._conn.send(struct.pack(">I", len(msg)) + msg)
+        out = struct.pack(">I", len(msg)) + msg
+        # a stream may take only part of what it is offered
+        sent = self._conn.send(out)
+        while sent is not None and 0 < sent < len(out):
+            out = out[sent:]
+            sent = self._conn.send(out)
         data = self._read_all(4)
         msg = Message(self._read_all(struct.unpack(">I", data)[0]))
         return ord(msg.get_byte()), msg
